@@ -71,6 +71,7 @@ def structural():
                         and isinstance(n.args[0], ast.Name) and n.args[0].id == "self":
                     bad.append("%s line %d: %s(self, ...)" % (m, n.lineno, n.func.id))
     # the modules that lay a table out keep no state of their own between (or during) renderings
+    from pyvc import structural as st
     shared = []
     nmods = 0
     for mod in (sc.M_TBL, "clikit.ui.components.cell_wrapper", "clikit.ui.components.border_util"):
@@ -80,31 +81,10 @@ def structural():
             shared.append("%s: %r" % (mod, e))
             continue
         nmods += 1
-        for node in m2.tree.body:
-            tg = None
-            if isinstance(node, ast.Assign):
-                tg, val = node.targets, node.value
-            elif isinstance(node, ast.AnnAssign) and node.value is not None:
-                tg, val = [node.target], node.value
-            if tg is not None:
-                for x in ast.walk(val):
-                    if isinstance(x, (ast.Call, ast.List, ast.Dict, ast.Set, ast.ListComp, ast.DictComp, ast.SetComp)):
-                        shared.append("%s line %d: module-level object %s" % (mod.rsplit(".", 1)[1], node.lineno, ast.unparse(node)[:50]))
-                        break
-        for x in ast.walk(m2.tree):
-            if isinstance(x, (ast.Global, ast.Nonlocal)):
-                shared.append("%s line %d: %s" % (mod.rsplit(".", 1)[1], x.lineno, ast.unparse(x)))
-        for cname, c2 in m2.classes.items():
-            for name, expr in c2.consts.items():
-                for x in ast.walk(expr):
-                    if isinstance(x, (ast.Call, ast.List, ast.Dict, ast.Set)):
-                        shared.append("%s.%s: class-level object %s" % (cname, name, ast.unparse(expr)[:40]))
-                        break
-            for v in sorted(getattr(c2, "classvars", ())):
-                shared.append("%s.%s is re-assigned through the class" % (cname, v))
+        shared += ["%s: %s" % (mod.rsplit(".", 1)[1], f) for f in st.shared_mutable_state(m2)]
     extra = {
         "name": "C14.table_modules.frame.no_shared_state", "kind": "frame",
-        "text": "table, cell_wrapper and border_util define no mutable module-level or class-level object and declare no global: "
+        "text": "table, cell_wrapper and border_util hold no module-level or class-level object that their code mutates or re-binds and declare no global: "
                 "one rendering cannot influence another (whatever the order or interleaving)",
         "status": "proved" if not shared else "failed",
         "note": "; ".join(shared[:6]) if shared else "%d modules scanned" % nmods,
